@@ -1003,7 +1003,11 @@ func (self *Fork) vdrKill(partialKill *PartialVdrKillReport) *VDRKillReport {
 				self.node.GetFQName(), len(partialKill.Events))
 		}
 		killReport = mergeVDRKillReports([]*VDRKillReport{killReport, &partialKill.VDRKillReport})
+		// Write the final report before removing the partial one, so that the
+		// accounting survives if the process is killed in between.
+		self.metadata.Write(VdrKill, killReport)
 		self.deletePartialKill()
+		return killReport
 	} else {
 		if self.node.top.rt.Config.Debug {
 			util.LogInfo("storage",
